@@ -116,7 +116,15 @@ pub fn generate_with_logs(plan: &Plan, core: &Rc<SimCore>, seed: u64, logs: bool
                 let e = make_error(k);
                 shape.parse_errors += 1;
                 let prev: Vec<usize> = perr_nodes.last().copied().into_iter().collect();
+                // now and then the parser reports the very same error value once more (one directory / IO
+                // error handed out for every file it concerns): two items, to be counted as two
+                let again = r.chance(1, 4).then(|| e.clone());
                 perr_nodes.push(dag.add(Box::new(move || Err(e)), &prev));
+                if let Some(e2) = again {
+                    shape.parse_errors += 1;
+                    let prev: Vec<usize> = perr_nodes.last().copied().into_iter().collect();
+                    perr_nodes.push(dag.add(Box::new(move || Err(e2)), &prev));
+                }
             }
         }
     }
